@@ -57,8 +57,8 @@ var anchorPreds = map[string]anchorPred{
 			return false
 		}
 		loops := false
-		for _, l := range mapLoops(f) {
-			if call, _ := eng.TupleCall(l.Range.X); call != nil {
+		for _, l := range entryLoops(f) {
+			if call, _ := eng.TupleCall(l.Src()); call != nil {
 				if cal := eng.Callee(&call.Call); cal != nil && returnsSnapshot(p, cal) {
 					loops = true
 				}
